@@ -147,6 +147,12 @@ theorem table_commutes (t : Table) (a b : Nat × Bytes) (h : a.1 ≠ b.1) (g : N
   simp only [writes, List.foldl_cons, List.foldl_nil, table_lww]
   by_cases h1 : g = a.1 <;> by_cases h2 : g = b.1 <;> simp_all
 
+/-- storing a format again replaces the entry, it does not add one: a formatter that runs twice (the
+same node in two pipelines of one event) leaves the table as after one run -/
+theorem table_idempotent (t : Table) (f : Nat) (v w : Bytes) :
+    formattedAs (formattedAs t f v) f w = formattedAs t f w := by
+  simp [formattedAs, List.filter_append, List.filter_filter]
+
 /-- an event formatted by nobody has bytes for no format: every sink refuses it -/
 theorem table_empty (g : Nat) : format [] g = none := rfl
 
